@@ -572,8 +572,8 @@ static void w_audit(void)
         MC_CHECK(PC04 | PC03, nested_bad == 0, "%d of %d lookups made from inside foreach_const's visit function gave a wrong answer", nested_bad, nested_calls);
         if (mc_branch_dead) return;
     }
-    /* the canonical model fields and the public struct agree about where the table is heading */
-    if (m_resized) {
+    /* the canonical model fields and the public struct agree about where the table is heading (needs the private members) */
+    if (m_resized && !HASH_NOPRIV) {
         size_t heading = s.pending ? s.rhcount : s.count;
         MC_CHECK(PC19, heading == m_nreq, "the table is heading for %zu buckets, the most recent request was %zu", heading, m_nreq);
         if (m_freq != F_MUL) MC_CHECK(PC19, (s.pending ? H_FID_RH(T) : H_FID_CUR(T)) == m_freq, "the table is heading for hash function #%d, the most recent request was #%d", (s.pending ? H_FID_RH(T) : H_FID_CUR(T)), m_freq);
